@@ -1,6 +1,8 @@
 """C04 - stochastic draws: specified probabilities, independent, seed-reproducible."""
 from __future__ import annotations
 
+import os
+
 import numpy as np
 from hypothesis import strategies as st
 
@@ -71,7 +73,8 @@ def cases(draw):
         params.setdefault(n, {})
     spec = Spec(T, states, choices, {k: functions[k] for k in d.perm(list(functions))}, consts, params)
     return {"spec": spec.to_json(), "seed_a": draw(st.integers(0, 2**31 - 1)), "seed_b": draw(st.integers(0, 2**31 - 1)),
-            "block": draw(st.sampled_from([1, 7, 50, 500])), "n_small": draw(st.integers(1, 40))}
+            "block": draw(st.sampled_from([1, 7, 50, 500])), "n_small": draw(st.integers(1, 40)),
+            "cross_process": draw(st.sampled_from([0, 0, 0, 1, 4242]))}
 
 
 def strategy(tier):
@@ -255,6 +258,35 @@ def check(case):
             m2, _ = simcheck.check_law_of_motion(spec, Reference(spec), ds1, init_s, ns)
             if m2:
                 msgs.append(f"{ns} agents: " + m2[0])
+    # same seed in ANOTHER process (another hash seed) gives the identical frame
+    if not msgs and case.get("cross_process"):
+        import json as _json
+        import subprocess
+        import sys
+        import tempfile
+
+        from ..runner import ROOT
+
+        n_cp = 400
+        init_c = {s: v[:: max(1, N // n_cp)][:n_cp] for s, v in init.items()}
+        fsas = simcheck.get_functions(spec, targets=("solve_and_simulate",))
+        here = simcheck.simulate(fsas, spec, init_c, case["seed_a"])
+        with tempfile.TemporaryDirectory(prefix="lcm-verif-c04-") as td:
+            with open(os.path.join(td, "job.json"), "w") as f:
+                _json.dump({"mode": "simulate_given_init", "spec": case["spec"], "seed": case["seed_a"],
+                            "init": {k: np.asarray(v).tolist() for k, v in init_c.items()}}, f)
+            env = dict(os.environ, PYTHONHASHSEED=str(case["cross_process"]),
+                       PYTHONPATH=ROOT + os.pathsep + os.environ.get("PYTHONPATH", ""))
+            r = subprocess.run([sys.executable, "-m", "vlib.subproc_solve", os.path.join(td, "job.json"),
+                                os.path.join(td, "out.npz")], cwd=ROOT, env=env, capture_output=True, text=True)
+            if r.returncode != 0:
+                raise RuntimeError("subprocess failed: " + r.stderr[-1500:])
+            other = dict(np.load(os.path.join(td, "out.npz")))
+        cnt["cross_process_comparisons"] = 1
+        for c in here.columns:
+            if not np.array_equal(np.asarray(here[c]), other["col_" + c]):
+                msgs.append(f"the same seed gives a different frame in another process (PYTHONHASHSEED={case['cross_process']}): column {c} differs")
+                break
     if not msgs:
         test_frame(dfa, f"seed {case['seed_a']}")
     if not msgs and dfb is not None:
@@ -264,7 +296,7 @@ def check(case):
     out = Outcome(digest=dg, classes=[f"stochastic_states_{len(stoch)}", f"block_{blk}"], nontrivial=nt, info=cnt)
     if msgs:
         out.status, out.reason = "violation", msgs[0]
-        out.bucket = "draws:" + ("seed" if "seed" in msgs[0] and ("same seed" in msgs[0] or "changing the seed" in msgs[0]) else
+        out.bucket = "draws:" + ("seed" if "seed" in msgs[0] and ("same seed" in msgs[0] or "changing the seed" in msgs[0] or "the same seed" in msgs[0]) else
                                  "zero_probability" if "which has probability 0" in msgs[0] or "drawn with probability 0" in msgs[0] else
                                  "frequency" if "binomial" in msgs[0] else "invalid_label" if "not labels of its grid" in msgs[0] else "independence")
         return out
